@@ -1142,6 +1142,13 @@ func (decl ImportDecl) CoqDecl() string {
 	// the last component is mapped like the rest of the path (it names the
 	// file ImportToPath writes)
 	name := path.Base(coqPath)
+	if !strings.Contains(coqPath, "/") {
+		// a one-element import path has no directory part
+		if decl.Trusted {
+			return fmt.Sprintf("From Perennial.goose_lang.trusted Require Import %s.", name)
+		}
+		return fmt.Sprintf("From Goose Require %s.", name)
+	}
 	if decl.Trusted {
 		return fmt.Sprintf("From Perennial.goose_lang.trusted Require Import %s.%s.", coqImportPath, name)
 	} else {
